@@ -31,6 +31,21 @@ def generate(rng, tier):
         cases.append(Case("md.ops", ops, meta={"nt": len(ops) > 1}))
     # is_valid: every subset of the three required entries, set to an empty, a blank-only or a real value, in both orders
     import itertools
+    # blank-only values made of every kind of Unicode White_Space (str::trim strips them all: VT, FF, U+0085, U+00A0,
+    # U+1680, U+2000..U+200A, U+2028/9, U+202F, U+205F, U+3000) and of near-misses that are NOT white space
+    # (U+001C..U+001F, U+200B, U+FEFF, U+180E): one required entry blank in that way, the other two real
+    UBLANK = ["\x0b", "\x0c", "\u0085", "\u00a0", "\u00a0\n", " \u1680 ", "\u2000\u2001\u200a", "\u2028", "\u2029\n", "\u202f", "\u205f", "\u3000",
+              "\t\x0b \u3000\n", "\x1c", "\x1f ", "\u200b", "\ufeff", "\u180e", "\u00a0x\u00a0", "\x00", "\u0085\u200b\u0085"]
+    for b in UBLANK:
+        for pos in range(3):
+            sub = ["text\n", "x", "y\n"]
+            sub[pos] = b
+            ops = ["%d:%s" % (i, enc(v)) for i, v in zip((2, 3, 5), sub)]
+            cases.append(Case("md.ops", ops, meta={"nt": True}))
+            cases.append(Case("md.ops", list(reversed(ops)), meta={"nt": True}))
+            # the blank value written after a real one (last write wins) and before it
+            cases.append(Case("md.ops", ops + ["%d:%s" % ((2, 3, 5)[pos], enc("real"))], meta={"nt": True}))
+            cases.append(Case("md.ops", ["%d:%s" % ((2, 3, 5)[pos], enc("real"))] + ops, meta={"nt": True}))
     for sub in itertools.product(["absent", "", " \n", "text\n"], repeat=3):
         ops = ["%d:%s" % (i, enc(v)) for i, v in zip((2, 3, 5), sub) if v != "absent"]
         if ops:
